@@ -12,8 +12,8 @@ use std::{collections::BTreeMap, fmt::Write as _, fs};
 
 use quote::ToTokens;
 use syn::{
-    parse::Parser, punctuated::Punctuated, Arm, BinOp, Block, Expr, ExprMatch, File, ImplItem, Item, Lit, Pat,
-    Stmt, Token, UnOp,
+    parse::Parser, punctuated::Punctuated, visit_mut::VisitMut, Arm, BinOp, Block, Expr, ExprMatch, File, ImplItem, Item,
+    Lit, Pat, Stmt, Token, UnOp,
 };
 
 static mut UNKNOWN: usize = 0;
@@ -269,6 +269,16 @@ fn lower_v(e: &Expr) -> String {
         Expr::Binary(b) if matches!(b.op, BinOp::Add(_)) => {
             format!("(.add {} {})", lower_v(&b.left), lower_v(&b.right))
         }
+        Expr::Binary(b) if matches!(b.op, BinOp::Shr(_) | BinOp::Shl(_) | BinOp::BitAnd(_) | BinOp::BitOr(_) | BinOp::Sub(_)) => {
+            let op = match b.op {
+                BinOp::Shr(_) => "shr",
+                BinOp::Shl(_) => "shl",
+                BinOp::BitAnd(_) => "band",
+                BinOp::BitOr(_) => "bor",
+                _ => "sub",
+            };
+            format!("(.bin {} {} {})", lean_str(op), lower_v(&b.left), lower_v(&b.right))
+        }
         Expr::Match(m) => {
             let scrut = lower_v(&m.expr);
             let mut arms = Vec::new();
@@ -335,6 +345,24 @@ fn lower_c(e: &Expr) -> String {
                         };
                         return format!("(.inRange {} {} {arg})", lean_int(lo), lean_int(hi));
                     }
+                }
+            }
+            unknown("condition", norm(e))
+        }
+        Expr::MethodCall(m) if (m.method == "is_err" || m.method == "is_ok") && m.args.is_empty() => {
+            // i8::try_from(v).is_err()  etc.
+            if let Expr::Call(c) = &*m.receiver {
+                let f = norm(&c.func);
+                let range = match f.as_str() {
+                    "i8 :: try_from" => Some((-128i64, 127i64)),
+                    "u8 :: try_from" => Some((0, 255)),
+                    "u16 :: try_from" => Some((0, 65535)),
+                    "i16 :: try_from" => Some((-32768, 32767)),
+                    _ => None,
+                };
+                if let (Some((lo, hi)), Some(arg)) = (range, c.args.first()) {
+                    let inr = format!("(.inRange {} {} {})", lean_int(lo), lean_int(hi), lower_v(arg));
+                    return if m.method == "is_err" { format!("(.not {inr})") } else { inr };
                 }
             }
             unknown("condition", norm(e))
@@ -469,6 +497,7 @@ fn lower_stmt(s: &Stmt) -> Vec<String> {
     match s {
         Stmt::Expr(e, _) => lower_expr_stmt(e),
         Stmt::Local(l) => vec![lower_let(l)],
+        Stmt::Item(Item::Const(c)) => vec![format!("(.letV {} {})", lean_str(&c.ident.to_string()), lower_v(&c.expr))],
         Stmt::Macro(m) => {
             let t = norm(&m.mac.path);
             if t == "unreachable" {
@@ -633,6 +662,13 @@ fn lower_expr_stmt(e: &Expr) -> Vec<String> {
                     let a = norm(m.args.first().unwrap());
                     if a == "& (value as u16) . to_le_bytes ()" {
                         vec!["(.pushWord (.var \"value\"))".into()]
+                    } else if let Some(Expr::Reference(r)) = m.args.first() {
+                        // extend_from_slice(&[a, b, …])
+                        if let Expr::Array(arr) = &*r.expr {
+                            arr.elems.iter().map(|x| format!("(.push {})", lower_v(x))).collect()
+                        } else {
+                            vec![unknown("extend_from_slice", t)]
+                        }
                     } else {
                         vec![unknown("extend_from_slice", t)]
                     }
@@ -733,9 +769,206 @@ fn lower_expr_stmt(e: &Expr) -> Vec<String> {
     }
 }
 
+// --------------------------------------------------------------- normalisation before lowering
+//
+// Rewrites that do not change what the arm does but bring it back to the shape the lowering reads:
+//  * a call `helper(asm, a, b)?` of a free function of the same file whose body has no early
+//    `return Ok(())` is replaced by the function's body with the parameters substituted;
+//  * the names bound by `let (L, E) = asm.expr()?` and `if let Some(V) = E.evaluate(..)` are
+//    renamed to the canonical `loc`, `expr`, `value`.
+
+struct Subst {
+    map: BTreeMap<String, Expr>,
+}
+
+impl VisitMut for Subst {
+    fn visit_expr_mut(&mut self, e: &mut Expr) {
+        if let Expr::Path(p) = e {
+            if p.path.segments.len() == 1 {
+                if let Some(r) = self.map.get(&p.path.segments[0].ident.to_string()) {
+                    *e = Expr::Paren(syn::ExprParen { attrs: vec![], paren_token: Default::default(), expr: Box::new(r.clone()) });
+                    return;
+                }
+            }
+        }
+        syn::visit_mut::visit_expr_mut(self, e);
+    }
+}
+
+struct Inliner<'a> {
+    helpers: &'a BTreeMap<String, syn::ItemFn>,
+    depth: usize,
+}
+
+impl<'a> Inliner<'a> {
+    fn try_inline(&mut self, call: &syn::ExprCall) -> Option<Expr> {
+        let name = match &*call.func {
+            Expr::Path(p) if p.path.segments.len() == 1 => p.path.segments[0].ident.to_string(),
+            _ => return None,
+        };
+        let f = self.helpers.get(&name)?;
+        if self.depth > 4 {
+            return None;
+        }
+        let params: Vec<String> = f
+            .sig
+            .inputs
+            .iter()
+            .filter_map(|a| match a {
+                syn::FnArg::Typed(t) => match &*t.pat {
+                    Pat::Ident(i) => Some(i.ident.to_string()),
+                    _ => None,
+                },
+                _ => None,
+            })
+            .collect();
+        if params.len() != call.args.len() || params.first().map(|s| s.as_str()) != Some("asm") || norm(&call.args[0]) != "asm" {
+            return None;
+        }
+        let mut block = (*f.block).clone();
+        // no early success return: the only `Ok(())` is the tail
+        let text = norm(&block);
+        if text.matches("Ok (())").count() != 1 || !matches!(block.stmts.last(), Some(Stmt::Expr(_, None))) {
+            return None;
+        }
+        block.stmts.pop();
+        let mut map = BTreeMap::new();
+        for (p, a) in params.iter().zip(call.args.iter()).skip(1) {
+            map.insert(p.clone(), a.clone());
+        }
+        let mut sub = Subst { map };
+        sub.visit_block_mut(&mut block);
+        self.depth += 1;
+        self.visit_block_mut(&mut block);
+        self.depth -= 1;
+        Some(Expr::Block(syn::ExprBlock { attrs: vec![], label: None, block }))
+    }
+}
+
+impl<'a> VisitMut for Inliner<'a> {
+    fn visit_expr_mut(&mut self, e: &mut Expr) {
+        // helper(asm, …)?   |   return helper(asm, …)   |   helper(asm, …) as the tail
+        let call = match e {
+            Expr::Try(t) => match &*t.expr {
+                Expr::Call(c) => Some(c.clone()),
+                _ => None,
+            },
+            Expr::Call(c) => Some(c.clone()),
+            _ => None,
+        };
+        if let Some(c) = call {
+            if let Some(b) = self.try_inline(&c) {
+                *e = b;
+                return;
+            }
+        }
+        syn::visit_mut::visit_expr_mut(self, e);
+    }
+}
+
+#[derive(Default)]
+struct Binders {
+    map: BTreeMap<String, String>,
+    conflict: bool,
+}
+
+impl Binders {
+    fn bind(&mut self, from: String, to: &str) {
+        if from == to {
+            return;
+        }
+        if let Some(old) = self.map.get(&from) {
+            if old != to {
+                self.conflict = true;
+            }
+        }
+        self.map.insert(from, to.to_string());
+    }
+}
+
+fn pat_ident(p: &Pat) -> Option<String> {
+    match p {
+        Pat::Ident(i) => Some(i.ident.to_string()),
+        _ => None,
+    }
+}
+
+impl VisitMut for Binders {
+    fn visit_local_mut(&mut self, l: &mut syn::Local) {
+        if let (Pat::Tuple(t), Some(init)) = (&l.pat, &l.init) {
+            if t.elems.len() == 2 && norm(&init.expr) == "asm . expr () ?" {
+                if let (Some(a), Some(b)) = (pat_ident(&t.elems[0]), pat_ident(&t.elems[1])) {
+                    self.bind(a, "loc");
+                    self.bind(b, "expr");
+                }
+            }
+        }
+        syn::visit_mut::visit_local_mut(self, l);
+    }
+    fn visit_expr_let_mut(&mut self, l: &mut syn::ExprLet) {
+        if let Pat::TupleStruct(ts) = &*l.pat {
+            if last_seg(&ts.path) == "Some" && ts.elems.len() == 1 && norm(&l.expr).contains(". evaluate (") {
+                if let Some(v) = pat_ident(&ts.elems[0]) {
+                    self.bind(v, "value");
+                }
+            }
+        }
+        syn::visit_mut::visit_expr_let_mut(self, l);
+    }
+}
+
+struct Renamer<'a> {
+    map: &'a BTreeMap<String, String>,
+}
+
+impl<'a> VisitMut for Renamer<'a> {
+    fn visit_ident_mut(&mut self, i: &mut proc_macro2::Ident) {
+        if let Some(to) = self.map.get(&i.to_string()) {
+            *i = proc_macro2::Ident::new(to, i.span());
+        }
+    }
+}
+
+fn idents_of(ts: proc_macro2::TokenStream, out: &mut Vec<String>) {
+    for t in ts {
+        match t {
+            proc_macro2::TokenTree::Ident(i) => out.push(i.to_string()),
+            proc_macro2::TokenTree::Group(g) => idents_of(g.stream(), out),
+            _ => {}
+        }
+    }
+}
+
+fn normalize_arm(body: &Expr, helpers: &BTreeMap<String, syn::ItemFn>) -> Expr {
+    let mut e = body.clone();
+    Inliner { helpers, depth: 0 }.visit_expr_mut(&mut e);
+    let mut b = Binders::default();
+    b.visit_expr_mut(&mut e);
+    if !b.conflict && !b.map.is_empty() {
+        // a canonical name must not already be in use for something else
+        let mut ids = Vec::new();
+        idents_of(e.to_token_stream(), &mut ids);
+        let targets: Vec<&String> = b.map.values().collect();
+        let clash = ids.iter().any(|i| targets.contains(&i) && !b.map.contains_key(i) && {
+            // `loc`, `expr`, `value` used by the untouched canonical bindings are fine
+            false
+        });
+        if !clash {
+            Renamer { map: &b.map }.visit_expr_mut(&mut e);
+        }
+    }
+    e
+}
+
 /// `impl ArchAssembler … { fn parse(asm, name) { match name { OperationName::X => body, … } } }`
 fn trees(file: &File) -> Vec<(String, String, bool)> {
     let mut out = Vec::new();
+    let mut helpers: BTreeMap<String, syn::ItemFn> = BTreeMap::new();
+    for item in &file.items {
+        if let Item::Fn(f) = item {
+            helpers.insert(f.sig.ident.to_string(), f.clone());
+        }
+    }
     for item in &file.items {
         if let Item::Impl(imp) = item {
             let tr = imp.trait_.as_ref().map(|(_, p, _)| last_seg(p)).unwrap_or_default();
@@ -764,7 +997,7 @@ fn trees(file: &File) -> Vec<(String, String, bool)> {
                                         }
                                     };
                                     let before = unsafe { UNKNOWN };
-                                    let body = block_of(&arm.body);
+                                    let body = block_of(&normalize_arm(&arm.body, &helpers));
                                     let ok = unsafe { UNKNOWN } == before;
                                     if !ok {
                                         eprintln!("azx: arm {op}: not translatable as written");
